@@ -268,7 +268,7 @@ struct Node {
   Type *func_ty;
   Node *args;
   bool pass_by_stack;
-  bool stack_pad;      // preceded by 8 bytes of padding on the stack
+  int stack_pad;       // number of 8-byte padding slots that precede it on the stack
   Obj *ret_buffer;
 
   // Goto or labeled statement, or labels-as-values
